@@ -114,13 +114,13 @@ func (vc *VC) execInstr(ins ssa.Instruction) {
 				before := vc.curMem
 				vc.curMem = before.clone()
 				vc.R[vc.cur] = g
-				vc.call(d.Common(), nil, d.Pos())
+				vc.runDeferred(d)
 				vc.R[vc.cur] = saveR
 				after := vc.curMem
 				vc.curMem = vc.mergeMems([]string{vc.R[d.Block()], not(vc.R[d.Block()])}, []*Mem{after, before})
 				continue
 			}
-			vc.call(d.Common(), nil, d.Pos())
+			vc.runDeferred(d)
 		}
 	case *ssa.Return:
 		var rs []SVal
